@@ -29,6 +29,7 @@ class Coop(object):
         self.waiting = {1: False, 2: False}
         self.done = {1: False, 2: False}
         self.free = False
+        self.stalled = False
         self.trace = []
 
     def checkpoint(self, tid, what):
@@ -37,7 +38,7 @@ class Coop(object):
                 return
             self.waiting[tid] = True
             self.cv.notify_all()
-            self.cv.wait_for(lambda: self.turn == tid or self.free, timeout=30)
+            self.cv.wait_for(lambda: self.turn == tid or self.free, timeout=20)
             self.turn = None
             self.waiting[tid] = False
             self.trace.append((tid, what))
@@ -53,18 +54,22 @@ class Coop(object):
 
     def wait_parked(self, tid):
         with self.cv:
-            if not self.cv.wait_for(lambda: self.parked(tid), timeout=30):
-                raise RuntimeError('thread %d did not reach a checkpoint' % tid)
+            if not self.cv.wait_for(lambda: self.parked(tid), timeout=5):
+                self.stalled = True
 
     def grant(self, tid):
+        """Let thread `tid` perform exactly one event. Returns False if it has already finished. A thread that does not come
+        back to a checkpoint of its own (e.g. because it is performing ANOTHER query's event) stalls the schedule."""
         with self.cv:
-            self.cv.wait_for(lambda: self.parked(tid), timeout=30)
+            if not self.cv.wait_for(lambda: self.parked(tid), timeout=3):
+                self.stalled = True
+                return False
             if self.done[tid]:
                 return False
             self.turn = tid
             self.cv.notify_all()
-            self.cv.wait_for(lambda: self.turn is None, timeout=30)
-            self.cv.wait_for(lambda: self.parked(tid), timeout=30)
+            if not self.cv.wait_for(lambda: self.turn is None, timeout=3) or not self.cv.wait_for(lambda: self.parked(tid), timeout=3):
+                self.stalled = True
             return True
 
     def release_all(self):
@@ -118,8 +123,8 @@ def run_pair(mods, c1, c2, sched):
         results[tid] = obs
         coop.finish(tid)
 
-    t1 = threading.Thread(target=worker, args=(1, c1))
-    t2 = threading.Thread(target=worker, args=(2, c2))
+    t1 = threading.Thread(target=worker, args=(1, c1), daemon=True)
+    t2 = threading.Thread(target=worker, args=(2, c2), daemon=True)
     t1.start()
     coop.wait_parked(1)
     t2.start()
@@ -128,18 +133,31 @@ def run_pair(mods, c1, c2, sched):
     for t in sched:
         if not coop.grant(t):
             drift += 1
+        if coop.stalled:
+            break
     coop.release_all()
-    t1.join(30)
-    t2.join(30)
+    t1.join(5)
+    t2.join(5)
+    if coop.stalled:
+        results['stalled'] = True
     return results, drift, coop.trace
 
 
 def _replay_schedules(items):
     mods = impl.load()
     out = []
+    stalls = 0
     for tid, c1, c2, sched in items:
+        if stalls >= 2:
+            # a stalled schedule leaves blocked threads behind and costs seconds: two per chunk are evidence enough
+            out.append((tid, [], 0, 0))
+            continue
         results, drift, trace = run_pair(mods, c1, c2, sched)
+        if results.get('stalled'):
+            stalls += 1
         sigs = []
+        if results.get('stalled'):
+            sigs.append({'impl': 'py', 'what': 'interleaved: scheduler stalled (a thread did not return to a checkpoint of its own query: it ran into the other query\'s iterator / writer, or blocked)'})
         for k, case in ((1, c1), (2, c2)):
             obs = results.get(k)
             if obs is None:
@@ -190,16 +208,33 @@ def replay_emitted(run, cases, label):
     return len(items)
 
 
+def _solo(case):
+    """One query in a process that has never run a query (forked from a parent that only imported the code): 'alone'."""
+    mods = impl.load()
+    q = engine.render_query(case, engine.Plain(), 'py')
+    obs = engine.run_case_py(mods, case, q)
+    return (ec.case_key(case), {'rows': obs['rows'], 'hdr': obs['hdr'], 'err': None if obs['err'] is None else [obs['err']['cls'], obs['err']['nr'], obs['err']['fld']]})
+
+
+SOLO = {}
+
+
 def _history_chunk(histories):
     mods = impl.load()
     out = []
     for hid, cases in histories:
         sigs = []
         for pos, case in enumerate(cases):
-            qtext = engine.render_query(case, engine.Spelling(ec.case_key(case) + str(pos)), 'py')
+            qtext = engine.render_query(case, engine.Plain(), 'py')
             obs = engine.run_case_py(mods, case, qtext)
+            hist = [engine.render_query(c, engine.Plain(), 'py') for c in cases[:pos]]
             for sig in engine.judge(case, obs, qtext):
-                sigs.append(dict(sig, what='after history: ' + sig['what'], position=pos, history=[engine.render_query(c, engine.Plain(), 'py') for c in cases[:pos]]))
+                sigs.append(dict(sig, what='after history: ' + sig['what'], position=pos, history=hist))
+            solo = SOLO.get(ec.case_key(case))
+            got = {'rows': obs['rows'], 'hdr': obs['hdr'], 'err': None if obs['err'] is None else [obs['err']['cls'], obs['err']['nr'], obs['err']['fld']]}
+            if solo is not None and got != solo:
+                # exact comparison, value types included (an int that becomes a float is a different result)
+                sigs.append({'impl': 'py', 'what': 'after history: result differs from running alone', 'query': qtext, 'got': got, 'want': solo, 'position': pos, 'history': hist})
         out.append((hid, sigs))
     return out
 
@@ -247,6 +282,14 @@ def check(run):
         rr = tlcrun.run_tlc('MC_Engine', ec.engine_cfg(os.path.join(d, fam + '.cfg'), fam, recs, 'R_none', maxa, 0, (False,), (0,)), timeout=3600)
         run.add_tlc('MC_Engine:history-pool:' + fam, rr)
         hc.extend(rr.cases)
+    # every pool case once 'alone': one freshly forked process per query (maxtasksperchild=1)
+    import multiprocessing
+    uniq = list({ec.case_key(c): c for c in hc}.values())
+    with multiprocessing.get_context('fork').Pool(par.NPROC, maxtasksperchild=1) as pool:
+        for key, solo in pool.imap_unordered(_solo, uniq, chunksize=1):
+            SOLO[key] = solo
+    run.traces += len(uniq)
+    run.notes['solo_runs_in_fresh_processes'] = len(uniq)
     rnd = random.Random(run.seed + 16)
     failing = [c for c in hc if c['expect']['err']]
     okc = [c for c in hc if not c['expect']['err']]
